@@ -78,6 +78,7 @@ type Scenario struct {
 	BatchLogs  int          `json:"batchLogs"`  // defs.IntermediateBufferMaxNumLogs
 	Reloader   bool         `json:"reloader,omitempty"` // run with NewReloaderFromConfigFile
 	Family     string       `json:"family,omitempty"`   // generator family (classification only)
+	Secret     bool         `json:"secret,omitempty"`   // the outputs use a shared key: every upstream connection starts with the Forward handshake
 	FlushMs    int          `json:"flushMs,omitempty"`  // defs.IntermediateFlushInterval in ms (0 = 20): a long interval lets chunks fill up to the byte limit
 	Gens       []Generation `json:"gens"`
 }
@@ -196,10 +197,19 @@ func configText(sc Scenario, root string, servers []string, variant string) stri
 	b.WriteString("outputBufferPairs:\n")
 	for i, mode := range sc.Modes {
 		hidden := "[kind, extradata, facility, pid, time]"
-		b.WriteString(fmt.Sprintf("  - name: out%d\n    buffer:\n      type: hybridBuffer\n      rootPath: %s\n      maxBufSize: %s\n    output:\n      type: fluentdForward\n      serialization:\n        environmentFields: [host, app]\n        hiddenFields: %s\n      messageMode: %s\n      upstream:\n        address: %s\n        tls: false\n        secret: \"\"\n        maxDuration: 30m\n",
-			i, filepath.Join(root, fmt.Sprintf("out%d", i)), maxBuf, hidden, mode, servers[i]))
+		b.WriteString(fmt.Sprintf("  - name: out%d\n    buffer:\n      type: hybridBuffer\n      rootPath: %s\n      maxBufSize: %s\n    output:\n      type: fluentdForward\n      serialization:\n        environmentFields: [host, app]\n        hiddenFields: %s\n      messageMode: %s\n      upstream:\n        address: %s\n        tls: false\n        secret: \"%s\"\n        maxDuration: 30m\n",
+			i, filepath.Join(root, fmt.Sprintf("out%d", i)), maxBuf, hidden, mode, servers[i], secretOf(sc)))
 	}
 	return b.String()
+}
+
+const sharedKey = "verif-shared-key"
+
+func secretOf(sc Scenario) string {
+	if sc.Secret {
+		return sharedKey
+	}
+	return ""
 }
 
 func payload(stamp string, size int) string {
@@ -389,6 +399,7 @@ func runScenario(sc Scenario) *Outcome {
 		if err != nil {
 			panic(err)
 		}
+		s.Secret = secretOf(sc)
 		servers[i], addrs[i] = s, s.Addr
 	}
 	defer func() {
@@ -418,6 +429,7 @@ func runScenario(sc Scenario) *Outcome {
 					out.Notes = append(out.Notes, "could not re-listen on "+addrs[i])
 					continue
 				}
+				ns.Secret = secretOf(sc)
 				servers[i] = ns
 			}
 			if servers[i] != nil && i < len(g.Upstream) {
